@@ -570,6 +570,8 @@ pub enum Mode<'a> {
     Run,
     Limited(&'a [LimitCall]),
     Steps(&'a [Step]),
+    /// limits configured through the builder, then driven through the stepping interface (steps, dispatch_all, finish)
+    LimitedSteps(&'a [LimitCall], &'a [Step]),
 }
 
 pub struct RunOpts {
@@ -602,7 +604,7 @@ pub fn real_run(prog: &Program, mode: Mode<'_>, opts: &RunOpts) -> Outcome {
         if !opts.default_queue {
             b = b.cqueue_options(prog.n, Duration::from_nanos(prog.t_ns));
         }
-        if let Mode::Limited(calls) = &mode {
+        if let Mode::Limited(calls) | Mode::LimitedSteps(calls, _) = &mode {
             for c in calls.iter() {
                 b = match c {
                     LimitCall::MaxItr(n) => b.max_itr(*n),
@@ -614,7 +616,7 @@ pub fn real_run(prog: &Program, mode: Mode<'_>, opts: &RunOpts) -> Outcome {
         let mut rt = b.build(app);
         out.now_after_build_ns = ns_of(SimTime::now());
         let ext_horizon = match &mode {
-            Mode::Steps(steps) => steps.iter().map(|s| if let Step::Ext { time_ns, .. } = s { *time_ns } else { 0 }).max().unwrap_or(0),
+            Mode::Steps(steps) | Mode::LimitedSteps(_, steps) => steps.iter().map(|s| if let Step::Ext { time_ns, .. } = s { *time_ns } else { 0 }).max().unwrap_or(0),
             _ => 0,
         };
         SCAN_BUDGET.with(|b| b.set(Some(scan_budget(prog, ext_horizon, opts.default_queue))));
@@ -632,7 +634,7 @@ pub fn real_run(prog: &Program, mode: Mode<'_>, opts: &RunOpts) -> Outcome {
 
         let result = match &mode {
             Mode::Run | Mode::Limited(_) => rt.run(),
-            Mode::Steps(steps) => {
+            Mode::Steps(steps) | Mode::LimitedSteps(_, steps) => {
                 rt.start();
                 for s in steps.iter() {
                     arm_scan_budget();
